@@ -72,6 +72,10 @@ fn main() {
     }
     // panics are results, not noise
     std::panic::set_hook(Box::new(|_| {}));
+    if args[1] == "--conc" {
+        conc(&args[2], args[3].parse().unwrap());
+        return;
+    }
     let f = std::fs::File::open(&args[1]).expect("case file");
     let skip: usize = args.get(2).map(|s| s.parse().unwrap()).unwrap_or(0);
     let out = std::io::stdout();
@@ -91,5 +95,92 @@ fn main() {
         let (res, trace) = ops::run(&mut ctx, &case);
         writeln!(out, "{}\t{}\t{}", i, res, trace).unwrap();
         out.flush().unwrap();
+    }
+}
+
+/// Concurrent mode (C15): the process is fresh, so the dispatch cell still holds
+/// `detect`. `n` threads are released by a barrier; thread t runs the cases
+/// whose index is congruent to t modulo n. A case file may start with a line
+/// `sharedneedle x=<hex>`: then `sfind h=..` / `srfind h=..` search with ONE
+/// Finder / FinderRev shared by all threads, and `siter h=.. k=..` iterates a
+/// clone of one shared FindIter prototype.
+fn conc(path: &str, n: usize) {
+    use std::sync::{Arc, Barrier, Mutex};
+    let text = std::fs::read_to_string(path).expect("case file");
+    let lines: Vec<String> = text.lines().map(|l| l.trim().to_string()).collect();
+    let lines = Arc::new(lines);
+    let mut needle: Vec<u8> = Vec::new();
+    if let Some(first) = lines.get(0) {
+        let c = Case::parse(first);
+        if c.op == "sharedneedle" {
+            needle = c.bytes("x");
+        }
+    }
+    let needle: &'static [u8] = Box::leak(needle.into_boxed_slice());
+    let finder = Arc::new(memchr::memmem::Finder::new(needle));
+    let rfinder = Arc::new(memchr::memmem::FinderRev::new(needle));
+    let results: Arc<Mutex<Vec<Option<(String, String)>>>> = Arc::new(Mutex::new(vec![None; lines.len()]));
+    let barrier = Arc::new(Barrier::new(n));
+    let mut handles = Vec::new();
+    for t in 0..n {
+        let lines = lines.clone();
+        let results = results.clone();
+        let barrier = barrier.clone();
+        let finder = finder.clone();
+        let rfinder = rfinder.clone();
+        handles.push(std::thread::spawn(move || {
+            let mut ctx = ops::Ctx::new();
+            let mut local: Vec<(usize, (String, String))> = Vec::new();
+            barrier.wait();
+            for (i, line) in lines.iter().enumerate() {
+                if i % n != t {
+                    continue;
+                }
+                if line.is_empty() || line.starts_with('#') || line.starts_with("sharedneedle") {
+                    local.push((i, ("#".to_string(), "-".to_string())));
+                    continue;
+                }
+                let case = Case::parse(line);
+                let r = match case.op {
+                    "sfind" => {
+                        let h = case.bytes("h");
+                        (opt(finder.find(&h)), "-".to_string())
+                    }
+                    "srfind" => {
+                        let h = case.bytes("h");
+                        (opt(rfinder.rfind(&h)), "-".to_string())
+                    }
+                    "siter" => {
+                        let h = case.bytes("h");
+                        let k = case.num("k");
+                        let mut it = finder.find_iter(&h);
+                        let mut outs: Vec<String> = Vec::new();
+                        for j in 0..k {
+                            if j == k / 2 {
+                                it = it.clone();
+                            }
+                            outs.push(opt(it.next()));
+                        }
+                        (outs.join(";"), "-".to_string())
+                    }
+                    _ => ops::run(&mut ctx, &case),
+                };
+                local.push((i, r));
+            }
+            let mut g = results.lock().unwrap();
+            for (i, r) in local {
+                g[i] = Some(r);
+            }
+        }));
+    }
+    for h in handles {
+        h.join().unwrap();
+    }
+    let out = std::io::stdout();
+    let mut out = out.lock();
+    let g = results.lock().unwrap();
+    for (i, r) in g.iter().enumerate() {
+        let (a, b) = r.clone().unwrap_or(("MISSING".to_string(), "-".to_string()));
+        writeln!(out, "{}\t{}\t{}", i, a, b).unwrap();
     }
 }
